@@ -1,4 +1,5 @@
 import HC.Worker.Invariants
+import HC.Worker.BlockedWrite
 /-!
 # C15 — Graceful shutdown is orderly and bounded
 
@@ -64,6 +65,25 @@ theorem bounded (rt : Runtime) (hc : Current rt) (cfg : Cfg) (script : List LAct
     (∀ r, s.g.returnTime = some r → r ≤ t + cfg.gracefulTimeout + cfg.shutdownTimeout) ∧
     (s.phase.terminal = false → s.now ≤ t + cfg.gracefulTimeout + cfg.shutdownTimeout) :=
   bounded_of_flags rt cfg script cap ops s (by rcases hc with rfl | rfl <;> rfl) hr t ht
+
+/-- **`bounded` does not extend to a handler held in a blocked transport write, as the code is (known finding F113)**: on
+    both worker classes such a handler, cancelled at the end of the grace period, is still there after any amount of time
+    in which its peer neither reads nor leaves - `worker_serve`, which waits for the cancelled handlers, is not back -/
+theorem blocked_write_outlives_grace (rt : Runtime) (hc : Current rt) (es : List BlockedWrite.Ev) (hs : BlockedWrite.Silent es) :
+    BlockedWrite.run rt .writing (.cancel :: es) = .cancelledWaiting := by
+  refine BlockedWrite.outlives_cancel rt ?_ es hs
+  rcases hc with rfl | rfl <;> rfl
+
+/-- … it ends when the peer leaves (what the correspondence runs observe when the harness's client closes), and a runtime
+    that gave the connection up on cancellation would be rid of it at once -/
+theorem blocked_write_released (rt : Runtime) (p : BlockedWrite.Phase) (es : List BlockedWrite.Ev) :
+    BlockedWrite.run rt p (.peerLeaves :: es) = .over ∧
+    (rt.blockedWriteOutlivesCancel = false → BlockedWrite.run rt .writing (.cancel :: es) = .over) :=
+  ⟨BlockedWrite.released_by_peer rt p es, fun h => BlockedWrite.released_at_once rt h es⟩
+
+-- non-vacuity: asyncio, cancelled, ten ticks: still waiting; then the peer leaves: over
+example : BlockedWrite.run Runtime.asyncio .writing (.cancel :: List.replicate 10 .tick) = .cancelledWaiting ∧
+    BlockedWrite.run Runtime.trio .writing (.cancel :: List.replicate 10 .tick ++ [.peerLeaves]) = .over := by decide
 
 /-- … and the clock is never stuck: at either deadline `worker_serve` has an action to take (the put cannot block
     because the queue bound is at least 2 and at most one message is still queued) — on runtimes on which a cancelled
